@@ -1,12 +1,19 @@
 import JL.Generated.Fns
+import JL.Lemmas.TieAuto
 import JL.Tie.to_string
 import JL.Tie.parse_float_string
 /-! tie: `parse_float`, as translated from the crate's current source, is the model's function - for every input -/
 namespace JL.Tie
 open JL
 
+/-- on a string (where the function does not call itself, whichever way it is written) -/
+theorem parse_float_str (s : Str) : Gen.parse_float (.str s) = JsOp.parseFloat (.str s) := by
+  unfold Gen.parse_float; tie_close [JsOp.parseFloat, parse_float_string, to_string]
+
+/-- on the other values it may call itself on the string form -/
 theorem parse_float (v : Json) : Gen.parse_float v = JsOp.parseFloat v := by
-  cases v <;> unfold Gen.parse_float <;> simp only [JsOp.parseFloat, rs, parse_float_string, to_string]
-  all_goals (unfold Gen.parse_float; simp only [parse_float_string])
+  cases v <;> first
+    | exact parse_float_str _
+    | (unfold Gen.parse_float; tie_close [JsOp.parseFloat, parse_float_string, to_string, parse_float_str])
 
 end JL.Tie
